@@ -240,5 +240,45 @@ def _impl(tier, seed, search):
     res = L.result(); res['exhaustive'] = True
     return res
 
+def correspondence(tier, seed):
+    from .common import model_correspondence
+    return model_correspondence('smv.props.c15', tier, seed)
+
+def _corr(tier, seed):
+    """getvector / isvector on every container form x length 0..8 x required length None/0..8 vs Logic.ArgCheck"""
+    import spatialmath.base as b
+    rows = []
+    N = 7 if tier == 'quick' else 9
+    def make(form):
+        t = form.split(':')
+        vals = lambda n: [0.5 + i for i in range(n)]
+        if t[0] == 'scalar': return 1.5
+        if t[0] == 'list': return vals(int(t[1]))
+        if t[0] == 'tuple': return tuple(vals(int(t[1])))
+        if t[0] == 'arr1': return np.array(vals(int(t[1])), dtype=float)
+        if t[0] == 'row': return np.array(vals(int(t[1])), dtype=float).reshape(1, -1)
+        if t[0] == 'col': return np.array(vals(int(t[1])), dtype=float).reshape(-1, 1)
+        if t[0] == 'arr2': return np.arange(int(t[1]) * int(t[2]), dtype=float).reshape(int(t[1]), int(t[2]))
+        return {'a': 1}
+    forms = ['scalar', 'other'] + [f'{k}:{n}' for k in ('list', 'tuple', 'arr1', 'row', 'col') for n in range(0, N)] + \
+            [f'arr2:{r}:{c}' for r in range(2, 5) for c in range(2, 5)]
+    dims = ['_'] + [str(d) for d in range(0, N)]
+    for f in forms:
+        for d in dims:
+            dim = None if d == '_' else int(d)
+            try:
+                r = b.getvector(make(f), dim)
+                exp = f'ok{len(r)}' if isinstance(r, np.ndarray) and r.ndim == 1 else f'badresult:{type(r).__name__}'
+            except ValueError: exp = 'ValueError'
+            except TypeError: exp = 'TypeError'
+            except Exception as e: exp = 'exc:' + type(e).__name__
+            rows.append(dict(req=f'logic getvector {f} {d}', exp=exp, meta=dict(form=f, dim=d)))
+            try:
+                r = b.isvector(make(f), dim)
+                exp = 'true' if r is True or r is np.True_ else ('false' if r is False or r is np.False_ else f'badresult:{r!r}')
+            except Exception as e: exp = 'exc:' + type(e).__name__
+            rows.append(dict(req=f'logic isvector {f} {d}', exp=exp, meta=dict(form=f, dim=d)))
+    return rows
+
 if __name__ == '__main__':
-    main_entry(_impl)
+    main_entry(_impl, _corr)
